@@ -31,15 +31,17 @@ def rule_copies(ctx):
 
 def rule_raw_reader_escapes(ctx):
     """O6.3: whatever is wrong with the container, a raw reader raises DataFormatError (or OSError for the file itself)."""
-    from .c10 import DATA_FORMAT, OSERROR, _chain_text, analysis
+    from .c10 import DATA_FORMAT, OSERROR, _chain_text, analysis, text_encoding_guard
 
     model = ctx.model
     escape, _ = analysis(model)
     ctx.res.minimum("O6.3", 4)
     for reader in ("cutplace.rowio.delimited_rows", "cutplace.rowio.fixed_rows", "cutplace.rowio.ods_rows", "cutplace.rowio.excel_rows"):
         info = model.func(reader)
+        guarded = text_encoding_guard(model)  # set_property refuses encodings that are no text encodings (C10)
         bad = [item for item in escape.escapes(reader)
-               if not (escape.lattice.is_subclass(item.cls, DATA_FORMAT) or escape.lattice.is_subclass(item.cls, OSERROR))]
+               if not (escape.lattice.is_subclass(item.cls, DATA_FORMAT) or escape.lattice.is_subclass(item.cls, OSERROR))
+               and not (guarded and item.cls == "builtins.LookupError" and item.origin[2].startswith(("io.open(", "open(")))]
         what = "%s raises nothing but DataFormatError / OSError" % reader.replace("cutplace.", "")
         if not bad:
             ctx.res.ok("O6.3", what, True, {"escaping": sorted({item.cls for item in escape.escapes(reader)})})
